@@ -41,6 +41,10 @@ pub struct Compiled {
 }
 
 pub fn install_quiet_panic_hook() {
+    // panics of the code under test are caught and reported by the checks; GEV_PANIC=1 shows them (debugging aid)
+    if std::env::var("GEV_PANIC").is_ok() {
+        return;
+    }
     std::panic::set_hook(Box::new(|_| {}));
 }
 
